@@ -154,7 +154,8 @@ hi_fread(void *buf, size_t size, size_t n, FILE *f)
     L.size = (unsigned)size;
     L.dst  = buf;
     L.bits = v;
-    L.n++;
+    if (L.n < 1000)
+        L.n++;
     if (g_pos[k] < 1000)
         g_pos[k]++;
     return 1;
@@ -187,7 +188,8 @@ hi_fscanf(FILE *f, const char *fmt, void *p, size_t sz)
     L.size = need;
     L.dst  = p;
     L.bits = v;
-    L.n++;
+    if (L.n < 1000)
+        L.n++;
     if (g_pos[k] < 1000)
         g_pos[k]++;
     return 1;
@@ -196,14 +198,16 @@ hi_fscanf(FILE *f, const char *fmt, void *p, size_t sz)
 int
 hi_fclose(FILE *f)
 {
-    L.nclose++;
+    if (L.nclose < 1000)
+        L.nclose++;
     return 0;
 }
 
 static int
 hi_msg(void)
 {
-    L.nerr++;
+    if (L.nerr < 1000)
+        L.nerr++;
     return 0;
 }
 
@@ -257,7 +261,8 @@ intn
 SDgetinfo(int32 sdsid, char *name, int32 *rank, int32 *dimsizes, int32 *nt, int32 *nattr)
 {
     int k = (sdsid >= 200 && sdsid < 200 + HI_NF) ? sdsid - 200 : 0;
-    H4V_ND(int32, sds_nt);
+    H4V_ND(int32, sds_other_nt); /* 0: the SDS is float32 (the only type hdfimport accepts from an HDF input) */
+    int32 sds_nt = sds_other_nt ? sds_other_nt : DFNT_FLOAT32;
     H4V_CHECK(sdsid >= 200 && sdsid < 200 + HI_NF, "SDgetinfo on an SDS of an HDF input");
     if (hi_lib_fails())
         return FAIL;
@@ -287,6 +292,17 @@ SDgetrange(int32 sdsid, void *pmax, void *pmin)
     memcpy(pmax, &rng_max, 4);
     memcpy(pmin, &rng_min, 4);
     return SUCCEED;
+}
+intn
+SDgetdimscale(int32 id, void *data)
+{
+    return hi_lib_fails() ? FAIL : SUCCEED;
+}
+intn
+SDreaddata(int32 sdsid, int32 *start, int32 *stride, int32 *end, void *data)
+{
+    H4V_CHECK(sdsid >= 200 && sdsid < 200 + HI_NF, "SDreaddata on an SDS of an HDF input");
+    return hi_lib_fails() ? FAIL : SUCCEED;
 }
 intn
 SDendaccess(int32 id)
@@ -696,13 +712,16 @@ void
 h_process(void)
 {
     hi_reset();
-    H4V_ND(int, fcount);
-    H4V_ASSUME(fcount >= 1 && fcount <= HI_NF);
+    const int fcount = HI_NF; /* a constant: keeps the indices opt->infiles[i] concrete */
     for (int k = 0; k < HI_NF; k++) {
         H4V_ND(int, req_outtype);
         H4V_ASSUME(req_outtype >= FP_32 && req_outtype <= NO_NE);
         H4V_ASSUME(g_fdims[k][0] >= 1 && g_fdims[k][0] <= 3 && g_fdims[k][1] >= 2 && g_fdims[k][1] <= 3 && g_fdims[k][2] >= 2 && g_fdims[k][2] <= 3);
         H4V_ASSUME(g_hdfrank[k] == (g_fdims[k][0] > 1 ? 3 : 2));
+#ifdef HI_DIMS_MIN
+        /* observational variant (nothing replaced: the real gdimen/gmaxmin/gscale/gdata run on the ghost disk) */
+        H4V_ASSUME(g_fdims[k][0] == 1 && g_fdims[k][1] == 2 && g_fdims[k][2] == 2);
+#endif
         g_opt.infiles[k].filename[0] = (char)('0' + k);
         g_opt.infiles[k].filename[1] = 0;
         g_opt.infiles[k].outtype     = req_outtype;
